@@ -186,6 +186,12 @@ def cli_histories(tier: str) -> List[History]:
             for sym in (H.S(1, acct=a), H.S(2, acct=a), H.M(1, 0, src=a, dst=2), H.M(2, 1, src=a, dst=2), H.B(1, 1, acct=a, fee="1/2")):
                 for step in ("=", "d"):
                     out.append((first, (sym, step)))
+    # transactions within one second (250 ms apart): an overdraft at .250 that a crypto-fee purchase at .500 would refill is an overdraft all the
+    # same, and a purchase at .000 covers a sale at .250
+    for a in (0, 1):
+        out.append(((H.B(1, 1, acct=a), "="), (H.S(2, acct=a), "ms"), (H.B(1, 2, acct=a, fee="1/4"), "ms")))
+        out.append(((H.B(1, 2, acct=a, fee="1/4"), "="), (H.S(1, acct=a), "ms"), (H.S(1, acct=a), "ms")))
+        out.append(((H.B(1, 1, acct=a), "="), (H.M(2, 0, src=a, dst=2), "ms"), (H.B(1, 2, acct=a, fee="1/2"), "ms"), (H.S(1, acct=2), "d")))
     return out
 
 
